@@ -574,6 +574,21 @@ func (gb *GrammarBind) TransitionCover(c *core.Ctx, g *tlc.Graph) *grammarStats 
 				}
 				atomic.AddInt64(&st.BadToken, 1)
 				gb.checkSentence(st, toks, nil, false, "near-miss cover", int64(j.u*977+j.ei*31+len(j.x)))
+				// the same with X INSERTED before the admitted token instead of standing in its place:
+				//   shortest path to u, X, Y, shortest accepting completion after Y
+				{
+					t3 := append([]RTok{}, toks[:dist[j.u]+1]...)
+					ycls, _ := tokAction(g.Nodes[j.u].Out[j.ei].Action)
+					t3 = append(t3, gb.Lexeme(ycls, len(t3)+1))
+					v := g.Nodes[j.u].Out[j.ei].To
+					for toAcc[v] > 0 {
+						cls, _ := tokAction(g.Nodes[v].Out[nextE[v]].Action)
+						t3 = append(t3, gb.Lexeme(cls, len(t3)+1))
+						v = g.Nodes[v].Out[nextE[v]].To
+					}
+					atomic.AddInt64(&st.BadToken, 1)
+					gb.checkSentence(st, t3, nil, false, "near-miss cover (inserted)", int64(j.u*977+j.ei*37+len(j.x)))
+				}
 				if j.ei == firstOut[j.u] {
 					// the same prefix and inadmissible X, completed as if X had been read where it is admissible
 					for _, w2 := range admit[j.x] {
